@@ -564,7 +564,7 @@ class Exec:
             return self.read_place(o[5:], env, fn)
         if o.startswith("const "):
             return self.const_value(o[6:], fn)
-        if re.fullmatch(r"[A-Za-z_][\w:<>, ]*", o):
+        if re.fullmatch(r"[A-Za-z_<][\w:<>, &'()\[\]]*", o) and not re.match(r"^(copy|move|const)\b", o):
             return OpaqueV("fn item " + o)       # a function item passed as an argument
         raise EncodingError("cannot parse operand %r in %s" % (o, fn.name))
 
